@@ -41,10 +41,14 @@ CATF = ["A", "C(A)", "C(A, contr.sum)", "C(A, contr.helmert)", "S", "C(S, levels
 
 
 def gen_formula(rng):
-    facs = rng.sample(NUMF, rng.randint(1, 2)) + rng.sample(CATF, rng.randint(0, 2))
+    if rng.random() < 0.3:  # categorical-only lattices incl. three-way interactions without their margins
+        facs = rng.sample(["A", "B", "S", "G", "C(A)", "C(G, contr.sum)"], rng.randint(2, 4))
+        facs = [f for i, f in enumerate(facs) if f.strip("C()").split(",")[0] not in {g.strip("C()").split(",")[0] for g in facs[:i]}]
+    else:
+        facs = rng.sample(NUMF, rng.randint(1, 2)) + rng.sample(CATF, rng.randint(0, 3))
     terms = []
     for _ in range(rng.randint(1, 3)):
-        terms.append(":".join(rng.sample(facs, rng.randint(1, min(2, len(facs))))))
+        terms.append(":".join(rng.sample(facs, rng.randint(1, min(3, len(facs))))))
     terms = list(dict.fromkeys(terms))
     s = " + ".join([rng.choice(["1", "0"])] + terms)
     if rng.random() < 0.2:
@@ -67,6 +71,7 @@ def gen_frame(rng, n, nulls):
         ["A", {"kind": "cat", "categories": ["u", "v", "w"], "values": cat(["u", "v", "w"])}],
         ["B", {"kind": "cat", "categories": ["k", "l"], "values": [nul(v) for v in cat(["k", "l"])]}],
         ["S", {"kind": "text", "dtype": "object", "values": cat(["s1", "s2", "s3"])}],
+        ["G", {"kind": "cat", "categories": ["g2", "g1"], "values": cat(["g1", "g2"])}],
     ], "index": None}
 
 
